@@ -15,7 +15,8 @@ RULE = ("random refreshed PUBO/PUSO/PCBO/PCSO models (3-7 variables for the tabl
         "mapping in insertion order or permuted with set_mapping; form in qubo/quso/pubo/puso, deg in 2..4, "
         "lam in {None, constant >= threshold, constant == threshold, constant below threshold, callable |v|, "
         "callable 2|v|+1}, optional pairs hints. Non-trivial = the produced form contains >= 1 ancilla; "
-        "distinct = digest of (class, terms, mapping, form, deg, lam kind, pairs)")
+        "distinct = digest of (class, terms, mapping, form, deg, lam kind, pairs)"
+        ' Also: enumerations chosen before the terms exist (set_mapping on the empty model), callable penalties of every kind, convert_solution with the spin flag omitted / contradicting a solution that is not all ones, rows where only ancillas differ from an all-ones model assignment, typed coefficients (Fraction, numpy, sympy), a second conversion after in-place edits.')
 TIERS = {"quick": {"shards": 8, "cases": 500}, "thorough": {"shards": 16, "cases": 12000}}
 FLOOR_BASE = {"quick": 230, "thorough": 6000}    # case counts the floors below were calibrated for; the launcher scales them
 CLASSES = ["PUBO", "PUSO", "PCBO", "PCSO"]
